@@ -258,6 +258,10 @@ def build(flavour="plain", repo=None, only=None, verbose=False):
         with ThreadPoolExecutor(max_workers=min(11, os.cpu_count() or 4)) as ex:
             list(ex.map(one, plans))
         shutil.rmtree(scratch, ignore_errors=True)
+        try:
+            os.utime(outdir, None)
+        except OSError:
+            pass
         info = dict(dir=outdir, flavour=flavour, stale=stale, built=built, wall_s=round(time.time() - t0, 2),
                     modules=[n for n, _, _, _ in plans], shim=shim)
         with open(os.path.join(outdir, "overlay.json"), "w") as f:
@@ -272,18 +276,23 @@ def build(flavour="plain", repo=None, only=None, verbose=False):
         lockf.close()
 
 
-def _prune(fdir, keep, n=4):
+def _prune(fdir, keep, n=12, min_age_s=6 * 3600):
+    """Drop old overlays of a flavour. Only directories untouched for hours are candidates: several checks (and
+    seeded-copy runs pointing at other trees) may be using different overlays at the same time."""
     try:
+        now = time.time()
         ds = [os.path.join(fdir, d) for d in os.listdir(fdir) if d != "ext"]
         ds = [d for d in ds if os.path.isdir(d) and d != keep]
         ds.sort(key=os.path.getmtime, reverse=True)
         for d in ds[n:]:
-            shutil.rmtree(d, ignore_errors=True)
+            if now - os.path.getmtime(d) > min_age_s:
+                shutil.rmtree(d, ignore_errors=True)
         ed = os.path.join(fdir, "ext")
         if os.path.isdir(ed):
             fs = sorted((os.path.join(ed, f) for f in os.listdir(ed)), key=os.path.getmtime, reverse=True)
-            for f in fs[60:]:
-                os.unlink(f)
+            for f in fs[200:]:
+                if now - os.path.getmtime(f) > min_age_s:
+                    os.unlink(f)
     except OSError:
         pass
 
